@@ -276,8 +276,8 @@ class PrettyPrinter:
         def depth(iterable):
             return isinstance(iterable, (tuple, list)) and max(map(depth, iterable)) + 1
 
-        if depth(root_list) == 2:
-            # single set of points only
+        if not root_list or depth(root_list) == 2:
+            # single set of points only (or an empty POINTS block)
             root_list = [root_list]
 
         for pair_list in root_list:
